@@ -1,4 +1,4 @@
-import NbioVerif.Properties.C06
+import NbioVerif.Lemmas.C06Core
 import NbioVerif.Model.HttpMsg
 /-! C07 infrastructure: single spec steps, self-loop scanning, and a finite check over all 256 bytes. -/
 namespace Http
